@@ -87,6 +87,14 @@ def build_model(ck: Checker) -> TransferModel:
                 break
     if dir_obj is None:
         raise AnalysisError("hashfile.transfer: directory object of the iteration not found")
+    # `loaded = find_tree(...); assert loaded; dir_obj = loaded`: the name the rest of the iteration uses
+    for _ in range(3):
+        nxt = [x.ast.targets[0].id for x in body if x.kind == "stmt" and isinstance(x.ast, ast.Assign) and len(x.ast.targets) == 1 and isinstance(x.ast.targets[0], ast.Name)
+               and isinstance(x.ast.value, ast.Name) and x.ast.value.id == dir_obj]
+        if len(nxt) == 1:
+            dir_obj = nxt[0]
+        else:
+            break
     entry_ids = None
     from ..an import collection_builds
 
